@@ -7,7 +7,7 @@ open UtilModel
 
 /-- the published result of a plain promise was written by its winner, call `v-1`, with exactly these
 arguments -/
-theorem published_winner_thread (s : St) (hi : Inv s) (p v : Nat) (e : Err)
+theorem published_winner_thread (s : St) (hi : Inv s) (p v : Nat) (e : Err) (hv0 : 1 ≤ v)
     (hpub : published s (.plain p) = some (v, e)) :
     1 ≤ v ∧ winnerOf s p = some (v - 1) ∧
     ∃ w, s.th[v - 1]? = some w ∧ (w.ts = .setRet p v e true ∨ w.ts = .setDone p v e true) := by
@@ -17,8 +17,14 @@ theorem published_winner_thread (s : St) (hi : Inv s) (p v : Nat) (e : Err)
   | none => simp [hp] at hpub
   | some pr =>
     simp [hp] at hpub
-    obtain ⟨h1, h2⟩ := hi.pr p pr hp
-    obtain ⟨hw, hv⟩ := h1 v e hpub
+    obtain ⟨h1, h1b, h2⟩ := hi.pr p pr hp
+    have hbf : pr.born = false := by
+      cases hb : pr.born with
+      | false => rfl
+      | true =>
+        obtain ⟨_, e0, he0⟩ := h1b hb
+        rw [hpub] at he0; cases he0; omega
+    obtain ⟨hw, hv⟩ := h1 v e hpub hbf
     refine ⟨hv, by simp [winnerOf, hp, hw], ?_⟩
     obtain ⟨w, hwt, hws⟩ := h2 (v - 1) hw
     refine ⟨w, hwt, ?_⟩
@@ -42,6 +48,13 @@ theorem winner_mono_step (s s' : St) (e : Ev) (hs : step s e = some s') (p w : N
     cases hp : s.proms[p]? with
     | none => simp [hp] at h
     | some pr => rw [getElem?_snoc_left _ _ _ _ hp]; simpa [hp] using h
+  | newpe q e0 =>
+    simp only [step] at hs; split at hs <;> simp at hs; subst hs
+    simp only [winnerOf] at h ⊢
+    cases hp : s.proms[p]? with
+    | none => simp [hp] at h
+    | some pr => rw [getElem?_snoc_left _ _ _ _ hp]; simpa [hp] using h
+  | checkLike c ok => simp only [step] at hs; split at hs <;> simp at hs; subst hs; exact h
   | swap t =>
     simp only [step] at hs
     split at hs <;> try simp at hs
@@ -154,6 +167,8 @@ theorem done_stable_step (s s' : St) (e : Ev) (hs : step s e = some s') (t : Nat
   | some o =>
     cases e with
     | newp q => simp only [step] at hs; split at hs <;> simp at hs; subst hs; exact ⟨th, ht, rfl⟩
+    | newpe q e0 => simp only [step] at hs; split at hs <;> simp at hs; subst hs; exact ⟨th, ht, rfl⟩
+    | checkLike c ok => simp only [step] at hs; split at hs <;> simp at hs; subst hs; exact ⟨th, ht, rfl⟩
     | quiesce bb B => simp only [step] at hs; split at hs <;> simp at hs; subst hs; exact ⟨th, ht, rfl⟩
     | invSet u q v e' =>
       simp only [step] at hs; split at hs <;> simp at hs; subst hs
@@ -247,6 +262,8 @@ theorem setDone_backward (s s' : St) (e : Ev) (hs : step s e = some s') (t : Nat
   | some o =>
     cases e with
     | newp q => simp only [step] at hs; split at hs <;> simp at hs; subst hs; exact Or.inl ⟨th', ht', hts'⟩
+    | newpe q e0 => simp only [step] at hs; split at hs <;> simp at hs; subst hs; exact Or.inl ⟨th', ht', hts'⟩
+    | checkLike c ok => simp only [step] at hs; split at hs <;> simp at hs; subst hs; exact Or.inl ⟨th', ht', hts'⟩
     | quiesce bb B => simp only [step] at hs; split at hs <;> simp at hs; subst hs; exact Or.inl ⟨th', ht', hts'⟩
     | invSet u q v' e' =>
       simp only [step] at hs; split at hs <;> simp at hs; subst hs
@@ -333,9 +350,11 @@ theorem setDone_backward (s s' : St) (e : Ev) (hs : step s e = some s') (t : Nat
     | _ => simp [Ev.obs] at ho
 
 theorem proms_len_step (s s' : St) (e : Ev) (hs : step s e = some s') :
-    s'.proms.length = s.proms.length + (match e with | .newp _ => 1 | _ => 0) := by
+    s'.proms.length = s.proms.length + (match e with | .newp _ => 1 | .newpe _ _ => 1 | _ => 0) := by
   cases e with
   | newp q => simp only [step] at hs; split at hs <;> simp at hs; subst hs; simp
+  | newpe q e0 => simp only [step] at hs; split at hs <;> simp at hs; subst hs; simp
+  | checkLike c ok => simp only [step] at hs; split at hs <;> simp at hs; subst hs; simp
   | swap t =>
     simp only [step] at hs
     split at hs <;> try simp at hs
@@ -423,6 +442,112 @@ end UtilModel.Promise
 namespace UtilModel.Promise
 open UtilModel
 
+/-- the `born` flag of an existing promise never changes -/
+theorem born_flag_step (s s' : St) (e : Ev) (hs : step s e = some s') (p : Nat) (pr : Prom)
+    (hq : s.proms[p]? = some pr) : ∃ pr', s'.proms[p]? = some pr' ∧ pr'.born = pr.born := by
+  cases e with
+  | newp q =>
+    simp only [step] at hs; split at hs <;> simp at hs; subst hs
+    exact ⟨pr, getElem?_snoc_left _ _ _ _ hq, rfl⟩
+  | newpe q e0 =>
+    simp only [step] at hs; split at hs <;> simp at hs; subst hs
+    exact ⟨pr, getElem?_snoc_left _ _ _ _ hq, rfl⟩
+  | checkLike c ok => simp only [step] at hs; split at hs <;> simp at hs; subst hs; exact ⟨pr, hq, rfl⟩
+  | swap t =>
+    simp only [step] at hs
+    split at hs <;> try simp at hs
+    split at hs <;> try simp at hs
+    rename_i q v e' hts
+    split at hs <;> try simp at hs
+    rename_i qr hqq
+    split at hs <;> simp at hs <;> subst hs
+    · exact ⟨pr, hq, rfl⟩
+    · by_cases hpq : q = p
+      · subst hpq; rw [hq] at hqq; cases hqq
+        exact ⟨{ pr with winner := some t }, by simp [setTs, lt_of_getElem? hq], rfl⟩
+      · exact ⟨pr, by simp only [setTs]; rw [getElem?_set_ne' _ _ _ _ hpq]; exact hq, rfl⟩
+  | publish t =>
+    simp only [step] at hs
+    split at hs <;> try simp at hs
+    split at hs <;> try simp at hs
+    rename_i q v e' hts
+    split at hs <;> simp at hs
+    rename_i qr hqq
+    subst hs
+    by_cases hpq : q = p
+    · subst hpq; rw [hq] at hqq; cases hqq
+      exact ⟨{ pr with res := some (v, e') }, by simp [setTs, lt_of_getElem? hq], rfl⟩
+    · exact ⟨pr, by simp only [setTs]; rw [getElem?_set_ne' _ _ _ _ hpq]; exact hq, rfl⟩
+  | invSet t q v e' => simp only [step] at hs; split at hs <;> simp at hs; subst hs; exact ⟨pr, hq, rfl⟩
+  | invAwait t q k => simp only [step] at hs; split at hs <;> simp at hs; subst hs; exact ⟨pr, hq, rfl⟩
+  | invCSetP t q => simp only [step] at hs; split at hs <;> simp at hs; subst hs; exact ⟨pr, hq, rfl⟩
+  | invCRes t v e' => simp only [step] at hs; split at hs <;> simp at hs; subst hs; exact ⟨pr, hq, rfl⟩
+  | invCAwait t k => simp only [step] at hs; split at hs <;> simp at hs; subst hs; exact ⟨pr, hq, rfl⟩
+  | quiesce bb B => simp only [step] at hs; split at hs <;> simp at hs; subst hs; exact ⟨pr, hq, rfl⟩
+  | envCancel t => simp only [step] at hs; split at hs <;> simp at hs; subst hs; exact ⟨pr, hq, rfl⟩
+  | envFire t f =>
+    simp only [step] at hs; split at hs <;> try simp at hs
+    obtain ⟨_, rfl⟩ := hs; exact ⟨pr, hq, rfl⟩
+  | retSet t bb =>
+    simp only [step] at hs
+    split at hs <;> try simp at hs
+    split at hs <;> try simp at hs
+    obtain ⟨_, rfl⟩ := hs; exact ⟨pr, hq, rfl⟩
+  | retAwait t v e' =>
+    simp only [step] at hs
+    split at hs <;> try simp at hs
+    split at hs <;> try simp at hs
+    obtain ⟨_, rfl⟩ := hs; exact ⟨pr, hq, rfl⟩
+  | retCSetP t =>
+    simp only [step] at hs
+    split at hs <;> try simp at hs
+    split at hs <;> try simp at hs
+    subst hs; exact ⟨pr, hq, rfl⟩
+  | retCRes t =>
+    simp only [step] at hs
+    split at hs <;> try simp at hs
+    split at hs <;> try simp at hs
+    subst hs; exact ⟨pr, hq, rfl⟩
+  | awSel t br =>
+    simp only [step] at hs
+    split at hs <;> try simp at hs
+    split at hs <;> try simp at hs
+    cases br <;> (try simp only at hs) <;> (try split at hs) <;> simp at hs <;> subst hs <;> exact ⟨pr, hq, rfl⟩
+  | cWCS t =>
+    simp only [step] at hs
+    split at hs <;> try simp at hs
+    split at hs <;> try simp at hs
+    · split at hs <;> simp at hs <;> subst hs <;> exact ⟨pr, hq, rfl⟩
+    · subst hs; exact ⟨pr, hq, rfl⟩
+  | cSample t =>
+    simp only [step] at hs
+    split at hs <;> try simp at hs
+    split at hs <;> try simp at hs
+    split at hs <;> simp at hs <;> subst hs <;> exact ⟨pr, hq, rfl⟩
+  | cNilSel t br =>
+    simp only [step] at hs
+    split at hs <;> try simp at hs
+    split at hs <;> try simp at hs
+    cases br <;> (try simp only at hs) <;> (try split at hs) <;> simp at hs
+    · subst hs; exact ⟨pr, hq, rfl⟩
+    · subst hs; exact ⟨pr, hq, rfl⟩
+    · subst hs; exact ⟨pr, hq, rfl⟩
+  | cInnerSel t br =>
+    simp only [step] at hs
+    split at hs <;> try simp at hs
+    split at hs <;> try simp at hs
+    cases br <;> (try simp only at hs) <;> (try split at hs) <;> simp at hs <;> subst hs <;> exact ⟨pr, hq, rfl⟩
+  | cChk1 t =>
+    simp only [step] at hs
+    split at hs <;> try simp at hs
+    split at hs <;> try simp at hs
+    split at hs <;> simp at hs <;> subst hs <;> exact ⟨pr, hq, rfl⟩
+  | cChk2 t =>
+    simp only [step] at hs
+    split at hs <;> try simp at hs
+    split at hs <;> try simp at hs
+    split at hs <;> simp at hs <;> subst hs <;> exact ⟨pr, hq, rfl⟩
+
 structure RSet (s : St) (ms : SetSt) : Prop where
   inv : Inv s
   rk : RK s ms.b
@@ -433,17 +558,27 @@ structure RSet (s : St) (ms : SetSt) : Prop where
   lost : ∀ t, t ∈ ms.lost → ∃ (th : Th) (p v : Nat) (e : Err), s.th[t]? = some th ∧ th.ts = .setDone p v e false
   retTrue : ∀ (t : Nat) (th : Th) (p v : Nat) (e : Err), s.th[t]? = some th → th.ts = .setDone p v e true →
     ∃ i, ms.pw[p]? = some i ∧ i.won = some t
+  born : ∀ (p : Nat) (i : PW) (pr : Prom), ms.pw[p]? = some i → s.proms[p]? = some pr → i.born = pr.born
 
 /-- the relation survives a step that is neither `newp` nor the return of a winning `SetResult`,
 when the monitor changes only its bookkeeping -/
 theorem rset_next (s s' : St) (e : Ev) (ms : SetSt) (b' : Book) (hR : RSet s ms) (hs : step s e = some s')
-    (hn : ∀ q, e ≠ .newp q) (hr : ∀ t, e ≠ .retSet t true) (hrk : RK s' b') :
+    (hn : ∀ q, e ≠ .newp q) (hn2 : ∀ q x, e ≠ .newpe q x) (hr : ∀ t, e ≠ .retSet t true) (hrk : RK s' b') :
     RSet s' { ms with b := b' } := by
-  refine ⟨step_inv s e s' hR.inv hs, hrk, ?_, ?_, ?_, ?_, ?_⟩
-  · have := proms_len_step s s' e hs
-    rw [this, hR.len]
+  have hlen : s'.proms.length = s.proms.length := by
+    have := proms_len_step s s' e hs
+    rw [this]
     cases e <;> simp
-    exact absurd rfl (hn _)
+    · exact absurd rfl (hn _)
+    · exact absurd rfl (hn2 _ _)
+  refine ⟨step_inv s e s' hR.inv hs, hrk, by rw [hlen]; exact hR.len, ?_, ?_, ?_, ?_, ?_⟩
+  rotate_right
+  · intro p i pr' hp hq
+    have hpl : p < s.proms.length := by rw [← hlen]; exact lt_of_getElem? hq
+    obtain ⟨pr, hpr⟩ : ∃ pr, s.proms[p]? = some pr := ⟨s.proms[p], by simp⟩
+    obtain ⟨pr2, h1, h2⟩ := born_flag_step s s' e hs p pr hpr
+    rw [hq] at h1; cases h1
+    rw [h2]; exact hR.born p i pr hp hpr
   · intro p i w hp hw
     exact winner_mono_step s s' e hs p w (hR.won p i w hp hw)
   · intro p i L hp hL
@@ -459,7 +594,7 @@ theorem rset_next (s s' : St) (e : Ev) (ms : SetSt) (b' : Book) (hR : RSet s ms)
     · exact absurd h1 (hr t)
 
 theorem rset_init : RSet model.init monC11set.init := by
-  refine ⟨init_inv, rk_init, rfl, ?_, ?_, ?_, ?_⟩ <;> intros <;> simp_all [monC11set, model]
+  refine ⟨init_inv, rk_init, rfl, ?_, ?_, ?_, ?_, ?_⟩ <;> intros <;> simp_all [monC11set, model]
 
 theorem winBy_ok (s : St) (ms : SetSt) (hR : RSet s ms) (p w : Nat) (hp : p < s.proms.length)
     (hw : winnerOf s p = some w) :
@@ -478,12 +613,27 @@ theorem winBy_ok (s : St) (ms : SetSt) (hR : RSet s ms) (p w : Nat) (hp : p < s.
       obtain ⟨w', hm, hw'⟩ := hR.cands p i L hi hc
       rw [hw] at hw'; cases hw'
       simpa using hm
-  simp [winBy, hi, h1, h2]
+  have h3 : i.born = false := by
+    obtain ⟨pr, hpr⟩ : ∃ pr, s.proms[p]? = some pr := ⟨s.proms[p], by simp⟩
+    rw [hR.born p i pr hi hpr]
+    cases hb : pr.born with
+    | false => rfl
+    | true =>
+      have := ((hR.inv.pr p pr hpr).2.1 hb).1
+      simp [winnerOf, hpr] at hw
+      rw [hw] at this; cases this
+  simp [winBy, hi, h1, h2, h3]
 
 /-- the relation after the monitor learned that `w` won `p` (and possibly that a call lost) -/
 theorem rset_won (s : St) (ms : SetSt) (hR : RSet s ms) (p w : Nat) (i : PW) (hi : ms.pw[p]? = some i)
     (hw : winnerOf s p = some w) : RSet s { ms with pw := ms.pw.set p { i with won := some w } } := by
-  refine ⟨hR.inv, hR.rk, by simp [hR.len], ?_, ?_, hR.lost, ?_⟩
+  refine ⟨hR.inv, hR.rk, by simp [hR.len], ?_, ?_, hR.lost, ?_, ?_⟩
+  rotate_right
+  · intro q j pr hq hpr
+    simp only at hq
+    rcases getElem?_set_cases ms.pw p q _ j hq with ⟨rfl, rfl⟩ | ⟨_, hx⟩
+    · exact hR.born q i pr hi hpr
+    · exact hR.born q j pr hx hpr
   · intro q j w' hq hw'
     simp only at hq
     rcases getElem?_set_cases ms.pw p q _ j hq with ⟨rfl, rfl⟩ | ⟨_, hx⟩
@@ -509,9 +659,29 @@ end UtilModel.Promise
 namespace UtilModel.Promise
 open UtilModel
 
+theorem born_rel_step (s s' : St) (e : Ev) (hs : step s e = some s') (pw : List PW)
+    (hlen : s'.proms.length = s.proms.length)
+    (h : ∀ (p : Nat) (i : PW) (pr : Prom), pw[p]? = some i → s.proms[p]? = some pr → i.born = pr.born) :
+    ∀ (p : Nat) (i : PW) (pr' : Prom), pw[p]? = some i → s'.proms[p]? = some pr' → i.born = pr'.born := by
+  intro p i pr' hp hq
+  have hpl : p < s.proms.length := by rw [← hlen]; exact lt_of_getElem? hq
+  obtain ⟨pr, hpr⟩ : ∃ pr, s.proms[p]? = some pr := ⟨s.proms[p], by simp⟩
+  obtain ⟨pr2, h1, h2⟩ := born_flag_step s s' e hs p pr hpr
+  rw [hq] at h1; cases h1
+  rw [h2]; exact h p i pr hp hpr
+
+theorem born_rel_set (s : St) (pw : List PW) (p : Nat) (i i' : PW) (hi : pw[p]? = some i) (hb : i'.born = i.born)
+    (h : ∀ (p : Nat) (i : PW) (pr : Prom), pw[p]? = some i → s.proms[p]? = some pr → i.born = pr.born) :
+    ∀ (q : Nat) (j : PW) (pr : Prom), (pw.set p i')[q]? = some j → s.proms[q]? = some pr → j.born = pr.born := by
+  intro q j pr hq hpr
+  rcases getElem?_set_cases pw p q _ j hq with ⟨rfl, rfl⟩ | ⟨_, hx⟩
+  · rw [hb]; exact h q i pr hi hpr
+  · exact h q j pr hx hpr
+
 theorem set_sim_internal (s s' : St) (e : Ev) (ms : SetSt) (hR : RSet s ms)
     (hs : step s e = some s') (ho : e.obs = none) : RSet s' ms := by
   have := rset_next s s' e ms ms.b hR hs (by intro q h; subst h; simp [Ev.obs] at ho)
+    (by intro q x h; subst h; simp [Ev.obs] at ho)
     (by intro t h; subst h; simp [Ev.obs] at ho) (rk_internal s s' e ms.b hR.inv hR.rk hs ho)
   exact this
 
@@ -521,11 +691,12 @@ theorem set_sim_obs (s s' : St) (e : Ev) (o : Obs) (ms : SetSt) (hR : RSet s ms)
   have hi := hR.inv
   have hrk' := rk_obs s s' e o ms.b hi hR.rk hs ho
   -- the events on which the monitor only updates its bookkeeping
-  have plain : (∀ q, e ≠ .newp q) → (∀ t r, e ≠ .retSet t r) → (∀ t v x, e ≠ .retAwait t v x) →
+  have plain : (∀ q, e ≠ .newp q) → (∀ q x, e ≠ .newpe q x) → (∀ t r, e ≠ .retSet t r) →
+      (∀ t v x, e ≠ .retAwait t v x) →
       monC11set.step ms o = some { ms with b := ms.b.update o } →
       ∃ ms', monC11set.step ms o = some ms' ∧ RSet s' ms' := by
-    intro h1 h2 h3 hm
-    exact ⟨_, hm, rset_next s s' e ms _ hR hs h1 (fun t => h2 t true) hrk'⟩
+    intro h1 h1' h2 h3 hm
+    exact ⟨_, hm, rset_next s s' e ms _ hR hs h1 h1' (fun t => h2 t true) hrk'⟩
   cases e with
   | swap t => simp [Ev.obs] at ho
   | publish t => simp [Ev.obs] at ho
@@ -536,22 +707,63 @@ theorem set_sim_obs (s s' : St) (e : Ev) (o : Obs) (ms : SetSt) (hR : RSet s ms)
   | cInnerSel t br => simp [Ev.obs] at ho
   | cChk1 t => simp [Ev.obs] at ho
   | cChk2 t => simp [Ev.obs] at ho
-  | invSet t p v x => simp [Ev.obs] at ho; subst ho; exact plain (by simp) (by simp) (by simp) rfl
-  | invAwait t p k => simp [Ev.obs] at ho; subst ho; exact plain (by simp) (by simp) (by simp) rfl
-  | envCancel t => simp [Ev.obs] at ho; subst ho; exact plain (by simp) (by simp) (by simp) rfl
-  | envFire t f => simp [Ev.obs] at ho; subst ho; exact plain (by simp) (by simp) (by simp) rfl
-  | invCSetP t p => simp [Ev.obs] at ho; subst ho; exact plain (by simp) (by simp) (by simp) rfl
-  | retCSetP t => simp [Ev.obs] at ho; subst ho; exact plain (by simp) (by simp) (by simp) rfl
-  | invCRes t v x => simp [Ev.obs] at ho; subst ho; exact plain (by simp) (by simp) (by simp) rfl
-  | retCRes t => simp [Ev.obs] at ho; subst ho; exact plain (by simp) (by simp) (by simp) rfl
-  | invCAwait t k => simp [Ev.obs] at ho; subst ho; exact plain (by simp) (by simp) (by simp) rfl
-  | quiesce bb B => simp [Ev.obs] at ho; subst ho; exact plain (by simp) (by simp) (by simp) rfl
+  | invSet t p v x => simp [Ev.obs] at ho; subst ho; exact plain (by simp) (by simp) (by simp) (by simp) rfl
+  | invAwait t p k => simp [Ev.obs] at ho; subst ho; exact plain (by simp) (by simp) (by simp) (by simp) rfl
+  | envCancel t => simp [Ev.obs] at ho; subst ho; exact plain (by simp) (by simp) (by simp) (by simp) rfl
+  | envFire t f => simp [Ev.obs] at ho; subst ho; exact plain (by simp) (by simp) (by simp) (by simp) rfl
+  | invCSetP t p => simp [Ev.obs] at ho; subst ho; exact plain (by simp) (by simp) (by simp) (by simp) rfl
+  | retCSetP t => simp [Ev.obs] at ho; subst ho; exact plain (by simp) (by simp) (by simp) (by simp) rfl
+  | invCRes t v x => simp [Ev.obs] at ho; subst ho; exact plain (by simp) (by simp) (by simp) (by simp) rfl
+  | retCRes t => simp [Ev.obs] at ho; subst ho; exact plain (by simp) (by simp) (by simp) (by simp) rfl
+  | invCAwait t k => simp [Ev.obs] at ho; subst ho; exact plain (by simp) (by simp) (by simp) (by simp) rfl
+  | quiesce bb B => simp [Ev.obs] at ho; subst ho; exact plain (by simp) (by simp) (by simp) (by simp) rfl
+  | checkLike c ok => simp [Ev.obs] at ho; subst ho; exact plain (by simp) (by simp) (by simp) (by simp) rfl
+  | newpe q x0 =>
+    simp [Ev.obs] at ho; subst ho
+    have hs0 := hs
+    simp only [step] at hs; split at hs <;> simp at hs; subst hs
+    refine ⟨{ ms with pw := ms.pw ++ [{ born := true }], b := ms.b.update (.newpe q x0) }, rfl, ?_⟩
+    refine ⟨step_inv s _ _ hi hs0, hrk', by simp [hR.len], ?_, ?_, ?_, ?_, ?_⟩
+    · intro p i w hp hw
+      simp only at hp
+      rcases getElem?_snoc_cases _ _ _ _ hp with ⟨_, hx⟩ | ⟨_, rfl⟩
+      · exact winner_mono_step s _ _ hs0 p w (hR.won p i w hx hw)
+      · cases hw
+    · intro p i L hp hL
+      simp only at hp
+      rcases getElem?_snoc_cases _ _ _ _ hp with ⟨_, hx⟩ | ⟨_, rfl⟩
+      · obtain ⟨w, h1, h2⟩ := hR.cands p i L hx hL
+        exact ⟨w, h1, winner_mono_step s _ _ hs0 p w h2⟩
+      · cases hL
+    · exact hR.lost
+    · intro t th p v x ht hts
+      obtain ⟨i, h1, h2⟩ := hR.retTrue t th p v x ht hts
+      exact ⟨i, getElem?_snoc_left _ _ _ _ h1, h2⟩
+    · intro p i pr hp hq
+      simp only at hp hq
+      rcases getElem?_snoc_cases _ _ _ _ hp with ⟨hl1, hx⟩ | ⟨hl1, rfl⟩
+      · rcases getElem?_snoc_cases _ _ _ _ hq with ⟨_, hy⟩ | ⟨hl2, _⟩
+        · exact hR.born p i pr hx hy
+        · have := hR.len; omega
+      · rcases getElem?_snoc_cases _ _ _ _ hq with ⟨hl2, _⟩ | ⟨_, rfl⟩
+        · have := hR.len; omega
+        · rfl
   | newp q =>
     simp [Ev.obs] at ho; subst ho
     have hs0 := hs
     simp only [step] at hs; split at hs <;> simp at hs; subst hs
     refine ⟨{ ms with pw := ms.pw ++ [{}], b := ms.b.update (.newp q) }, rfl, ?_⟩
-    refine ⟨step_inv s _ _ hi hs0, hrk', by simp [hR.len], ?_, ?_, ?_, ?_⟩
+    refine ⟨step_inv s _ _ hi hs0, hrk', by simp [hR.len], ?_, ?_, ?_, ?_, ?_⟩
+    rotate_right
+    · intro p i pr hp hq
+      simp only at hp hq
+      rcases getElem?_snoc_cases _ _ _ _ hp with ⟨hl1, hx⟩ | ⟨hl1, rfl⟩
+      · rcases getElem?_snoc_cases _ _ _ _ hq with ⟨_, hy⟩ | ⟨hl2, _⟩
+        · exact hR.born p i pr hx hy
+        · have := hR.len; omega
+      · rcases getElem?_snoc_cases _ _ _ _ hq with ⟨hl2, _⟩ | ⟨_, rfl⟩
+        · have := hR.len; omega
+        · rfl
     · intro p i w hp hw
       simp only at hp
       rcases getElem?_snoc_cases _ _ _ _ hp with ⟨_, hx⟩ | ⟨_, rfl⟩
@@ -597,7 +809,8 @@ theorem set_sim_obs (s s' : St) (e : Ev) (o : Obs) (ms : SetSt) (hR : RSet s ms)
       refine ⟨_, by simp [monC11set, hc, hkind, hret, hwin]; rfl, ?_⟩
       have h1 := rset_won s ms hR p t i hpi hw
       -- now the model step: the winner returns
-      refine ⟨step_inv s _ _ hi hs0, hrk', by simp [hR.len, setTs], ?_, ?_, ?_, ?_⟩
+      refine ⟨step_inv s _ _ hi hs0, hrk', by simp [hR.len, setTs], ?_, ?_, ?_, ?_,
+        born_rel_step s _ _ hs0 _ (by simp [setTs]) h1.born⟩
       · intro q j w hq hjw
         exact winner_mono_step s _ _ hs0 q w (h1.won q j w hq hjw)
       · intro q j L hq hL
@@ -616,22 +829,26 @@ theorem set_sim_obs (s s' : St) (e : Ev) (o : Obs) (ms : SetSt) (hR : RSet s ms)
           exact ⟨{ i with won := some t }, by simp [lt_of_getElem? hpi], rfl⟩
     | false =>
       simp only [Bool.false_eq_true, if_false] at hok2
-      obtain ⟨w, hw, hne⟩ := hok2
       have hp : p < s.proms.length := by
-        simp only [winnerOf] at hw
-        cases hpp : s.proms[p]? with
-        | none => simp [hpp] at hw
-        | some pr => exact lt_of_getElem? hpp
+        rcases hok2 with ⟨w, hw, _⟩ | hb
+        · simp only [winnerOf] at hw
+          cases hpp : s.proms[p]? with
+          | none => simp [hpp] at hw
+          | some pr => exact lt_of_getElem? hpp
+        · simp only [bornOf] at hb
+          cases hpp : s.proms[p]? with
+          | none => simp [hpp] at hb
+          | some pr => exact lt_of_getElem? hpp
       have hlp : p < ms.pw.length := by rw [hR.len]; exact hp
       obtain ⟨i, hpi⟩ : ∃ i, ms.pw[p]? = some i := ⟨ms.pw[p], by simp⟩
-      -- whatever the monitor records, the relation follows from these two facts
-      have hnt : i.won ≠ some t := by
-        intro h; have := hR.won p i t hpi h; rw [hw] at this; cases this; exact hne rfl
+      obtain ⟨pr0, hpr0⟩ : ∃ pr0, s.proms[p]? = some pr0 := ⟨s.proms[p], by simp⟩
+      have hib := hR.born p i pr0 hpi hpr0
       have finish : ∀ (ms1 : SetSt), ms1.b = ms.b → ms1.lost = ms.lost → RSet s ms1 →
           RSet (setTs s t th (.setDone p v x false))
             { ms1 with b := ms.b.update (.retSet t false), lost := t :: ms.lost } := by
         intro ms1 hb hlost h1
-        refine ⟨step_inv s _ _ hi hs0, hrk', by simp [h1.len, setTs], ?_, ?_, ?_, ?_⟩
+        refine ⟨step_inv s _ _ hi hs0, hrk', by simp [h1.len, setTs], ?_, ?_, ?_, ?_,
+          born_rel_step s _ _ hs0 _ (by simp [setTs]) h1.born⟩
         · intro q j w' hq hjw
           exact winner_mono_step s _ _ hs0 q w' (h1.won q j w' hq hjw)
         · intro q j L hq hL
@@ -648,8 +865,20 @@ theorem set_sim_obs (s s' : St) (e : Ev) (o : Obs) (ms : SetSt) (hR : RSet s ms)
           rcases setDone_backward s _ _ hs0 u thu' q v' x' hu' hts' with ⟨thu, h2, h3⟩ | ⟨h2, _⟩
           · exact h1.retTrue u thu q v' x' h2 h3
           · cases h2
+      -- a promise born resolved: every SetResult returns false
+      by_cases hbi : i.born = true
+      · refine ⟨{ ms with b := ms.b.update (.retSet t false), lost := t :: ms.lost },
+          by simp [monC11set, hc, hkind, hret, hpi, hbi], ?_⟩
+        exact finish ms rfl rfl hR
+      have hbf : i.born = false := by simpa using hbi
+      obtain ⟨w, hw, hne⟩ : ∃ w, winnerOf s p = some w ∧ w ≠ t := by
+        rcases hok2 with h | hb
+        · exact h
+        · simp [bornOf, hpr0, ← hib, hbf] at hb
+      have hnt : i.won ≠ some t := by
+        intro h; have := hR.won p i t hpi h; rw [hw] at this; cases this; exact hne rfl
       by_cases hws : i.won.isSome = true
-      · refine ⟨_, by simp [monC11set, hc, hkind, hret, hpi, hnt, hws]; rfl, ?_⟩
+      · refine ⟨_, by simp [monC11set, hc, hkind, hret, hpi, hnt, hws, hbf]; rfl, ?_⟩
         exact finish ms rfl rfl hR
       · have hwn : i.won = none := by simpa using hws
         -- the real winner is among the candidates the monitor keeps
@@ -667,7 +896,7 @@ theorem set_sim_obs (s s' : St) (e : Ev) (o : Obs) (ms : SetSt) (hR : RSet s ms)
             | none => simp [hpp] at hw
             | some pr =>
               simp [hpp] at hw
-              obtain ⟨thw, hthw, hws'⟩ := (hi.pr p pr hpp).2 w hw
+              obtain ⟨thw, hthw, hws'⟩ := (hi.pr p pr hpp).2.2 w hw
               have hwl : w < ms.b.calls.length := by rw [hR.rk.len]; exact lt_of_getElem? hthw
               obtain ⟨cw, hcw⟩ : ∃ cw, ms.b.calls[w]? = some cw := ⟨ms.b.calls[w], by simp⟩
               have hkw := hR.rk.call w thw cw hthw hcw
@@ -688,9 +917,9 @@ theorem set_sim_obs (s s' : St) (e : Ev) (o : Obs) (ms : SetSt) (hR : RSet s ms)
           intro hL; rw [hL] at hwL; cases hwL
         refine ⟨{ ms with pw := ms.pw.set p { i with cands := some (lostCands ms.b i p t) },
                           b := ms.b.update (.retSet t false), lost := t :: ms.lost }, ?_, ?_⟩
-        · simp [monC11set, hc, hkind, hret, hpi, hnt, hwn, hne']
+        · simp [monC11set, hc, hkind, hret, hpi, hnt, hwn, hne', hbf]
         · refine finish { ms with pw := ms.pw.set p { i with cands := some _ } } rfl rfl ?_
-          refine ⟨hi, hR.rk, by simp [hR.len], ?_, ?_, hR.lost, ?_⟩
+          refine ⟨hi, hR.rk, by simp [hR.len], ?_, ?_, hR.lost, ?_, born_rel_set s ms.pw p i _ hpi rfl hR.born⟩
           · intro q j w' hq hjw
             simp only at hq
             rcases getElem?_set_cases ms.pw p q _ j hq with ⟨rfl, rfl⟩ | ⟨_, hx⟩
@@ -712,7 +941,7 @@ theorem set_sim_obs (s s' : St) (e : Ev) (o : Obs) (ms : SetSt) (hR : RSet s ms)
     have hnext : ∀ ms1 : SetSt, ms1.b = ms.b → RSet s ms1 →
         RSet s' { ms1 with b := ms.b.update (.retAwait t v x) } := by
       intro ms1 hb h1
-      exact rset_next s s' _ ms1 _ h1 hs (by simp) (by simp) hrk'
+      exact rset_next s s' _ ms1 _ h1 hs (by simp) (by simp) (by simp) hrk'
     simp only [step] at hs
     split at hs <;> try simp at hs
     rename_i th ht
@@ -725,13 +954,13 @@ theorem set_sim_obs (s s' : St) (e : Ev) (o : Obs) (ms : SetSt) (hR : RSet s ms)
     have hret : c.ret = false := by rw [hk.ret, hts]; rfl
     have hok := hi.th t th ht
     -- a result published on a plain promise: the monitor accepts it and learns the winner
-    have viaPlain : ∀ p, published s (.plain p) = some (v, x) →
+    have viaPlain : ∀ p, 1 ≤ v → published s (.plain p) = some (v, x) →
         ∃ cw i, ms.b.calls[v - 1]? = some cw ∧ cw.kind = .set p x ∧ (v - 1) ∉ ms.lost ∧ v ≠ 0 ∧
           ms.pw[p]? = some i ∧
           winBy ms p (v - 1) = some { ms with pw := ms.pw.set p { i with won := some (v - 1) } } ∧
           RSet s { ms with pw := ms.pw.set p { i with won := some (v - 1) } } := by
-      intro p hpub
-      obtain ⟨hv, hw, thw, hthw, hws⟩ := published_winner_thread s hi p v x hpub
+      intro p hv1 hpub
+      obtain ⟨hv, hw, thw, hthw, hws⟩ := published_winner_thread s hi p v x hv1 hpub
       have hwl : v - 1 < ms.b.calls.length := by rw [hR.rk.len]; exact lt_of_getElem? hthw
       obtain ⟨cw, hcw⟩ : ∃ cw, ms.b.calls[v - 1]? = some cw := ⟨ms.b.calls[v - 1], by simp⟩
       have hkw := hR.rk.call (v - 1) thw cw hthw hcw
@@ -751,8 +980,14 @@ theorem set_sim_obs (s s' : St) (e : Ev) (o : Obs) (ms : SetSt) (hR : RSet s ms)
     | some p =>
       have hkind : c.kind = .await p k := by rw [hk.kind, hts]; rfl
       simp only [ThOK, hts] at hok
-      rcases hok with ⟨hv1, hpub⟩ | ⟨hv0, _⟩
-      · obtain ⟨cw, i, hcw, hkw, hnl, hv0, hpi, hwin, h1⟩ := viaPlain p hpub
+      have hsplit : (1 ≤ v ∧ published s (.plain p) = some (v, x)) ∨ v = 0 := by
+        rcases hok with hpub | ⟨hv0, _⟩
+        · rcases Nat.eq_zero_or_pos v with h0 | h1
+          · exact Or.inr h0
+          · exact Or.inl ⟨h1, hpub⟩
+        · exact Or.inr hv0
+      rcases hsplit with ⟨hv1, hpub⟩ | hv0
+      · obtain ⟨cw, i, hcw, hkw, hnl, hv0, hpi, hwin, h1⟩ := viaPlain p hv1 hpub
         refine ⟨{ ms with pw := ms.pw.set p { i with won := some (v - 1) },
                           b := ms.b.update (.retAwait t v x) }, ?_,
           hnext { ms with pw := ms.pw.set p { i with won := some (v - 1) } } rfl h1⟩
@@ -766,7 +1001,7 @@ theorem set_sim_obs (s s' : St) (e : Ev) (o : Obs) (ms : SetSt) (hR : RSet s ms)
       rcases hok with ⟨hv1, r, hr1, hr2⟩ | ⟨hv0, _⟩
       · cases r with
         | plain p =>
-          obtain ⟨cw, i, hcw, hkw, hnl, hv0, hpi, hwin, h1⟩ := viaPlain p hr2
+          obtain ⟨cw, i, hcw, hkw, hnl, hv0, hpi, hwin, h1⟩ := viaPlain p hv1 hr2
           refine ⟨{ ms with pw := ms.pw.set p { i with won := some (v - 1) },
                             b := ms.b.update (.retAwait t v x) }, ?_,
           hnext { ms with pw := ms.pw.set p { i with won := some (v - 1) } } rfl h1⟩
